@@ -1,7 +1,7 @@
 #!/bin/bash
 # Build (incrementally) the symengine library from /repo's *current working tree*
 # into /verif/.work/build-<cfg>.  Only the library target is built.
-# usage: buildlib.sh <cfg>      cfg in: rel asan boost ts
+# usage: buildlib.sh <cfg>      cfg in: rel asan boost ts mpfr llvm
 set -e
 CFG=${1:-rel}
 REPO=${VERIF_REPO:-/repo}
@@ -15,6 +15,8 @@ case $CFG in
   rel)   FLAGS="-O1 -g0 -DNDEBUG -DSYMENGINE_VERIF -D_GLIBCXX_ASSERTIONS"; EXTRA="" ;;
   asan)  FLAGS="-O1 -g -DNDEBUG -DSYMENGINE_VERIF -D_GLIBCXX_ASSERTIONS -fsanitize=address,undefined -fno-sanitize-recover=undefined -fno-omit-frame-pointer"; EXTRA="" ;;
   boost) FLAGS="-O1 -g0 -DNDEBUG -DSYMENGINE_VERIF"; EXTRA="-DINTEGER_CLASS=boostmp" ;;
+  mpfr)  FLAGS="-O1 -g0 -DNDEBUG -DSYMENGINE_VERIF -D_GLIBCXX_ASSERTIONS"; EXTRA="-DWITH_MPFR=yes" ;;
+  llvm)  FLAGS="-O1 -g0 -DNDEBUG -DSYMENGINE_VERIF"; EXTRA="-DWITH_LLVM=yes -DLLVM_DIR=/usr/lib/llvm-14/lib/cmake/llvm" ;;
   ts)    FLAGS="-O1 -g -DNDEBUG -DSYMENGINE_VERIF -fsanitize=thread"; EXTRA="-DWITH_SYMENGINE_THREAD_SAFE=yes" ;;
   *) echo "unknown cfg $CFG" >&2; exit 2 ;;
 esac
